@@ -6,7 +6,11 @@ Necessary structural conditions (conversion values and code-point ordering are n
       result is cmp(op0, op1); with three it is cmp(op0, op1) AND cmp(op1, op2) —
       the second comparison sits under the true edge of the first, the false
       edge yields the constant false; the operands reach the comparator
-      untouched (index plumbing only, no conversion in between);
+      untouched (both arguments of every comparator application are elements of
+      the operand list: index plumbing only, no conversion in between) — the
+      comparator and the function applying it are found through path summaries
+      under the constant arguments of the forwarding calls (fn item, closure,
+      enum constant dispatched by a method);
   K2  sibling agreement of the four comparators: each converts both operands with
       the shared to-primitive (number hint) and then, per pair of primitive kinds
       (variant specialisation, 4 cases): String×String → string ordering of the
@@ -16,6 +20,7 @@ Necessary structural conditions (conversion values and code-point ordering are n
       and the same relational operator in all four cases, and that operator is
       the one the table name says (< Lt, <= Le, > Gt, >= Ge), operands in order;
       no comparator calls abstract equality or negates a sibling (NaN cases);
+      no ordering decision on the 64-bit integer readings of a JSON number;
   K3  to-primitive with number hint: Null → 0, Bool → 1/0 by payload, Number →
       as_f64, String/Array/Object → no number (string form is used);
   K4  the shared string→number conversion (A3 and ES structure, as in C07 K4).
@@ -162,6 +167,22 @@ def _through(facts, key, args, depth):
     return (k, args[i - 1], args[j - 1])
 
 
+def single_operand_conversions(facts, host):
+    """Crate functions to which `host` (or one of its closures) hands one JSON value — in a function that receives
+    nothing but the operand list these are conversions of single operands."""
+    out = []
+    bodies = [host] + [b_ for b_ in facts.fns() if b_.kind == "closure" and b_.key.startswith(host.key + "::{closure")]
+    for b_ in bodies:
+        for bi, t in b_.calls():
+            c = callee_of(t)
+            if not c or not c.get("local"):
+                continue
+            ins = facts.items.get(c["key"], {}).get("inputs") or []
+            if len([i for i in ins if i.endswith("serde_json::Value")]) == 1 and not _is_cmp_sig(facts, c["key"]):
+                out.append((b_, bi, c["path"]))
+    return out
+
+
 def find_host(facts, b, vecp):
     """(host body, operand-list parameter, parameter bindings, comparator keys, reason): the function in which the
     operator applies its comparator to operands, reached from the table function through calls that hand the
@@ -186,7 +207,8 @@ def find_host(facts, b, vecp):
         if keys:
             return host, vecp, env, keys, ""
         if len(fw) != 1:
-            return None, None, None, set(), "neither compares operands nor hands its operand list to one helper (%d candidates)" % len(fw)
+            conv = single_operand_conversions(facts, host)
+            return None, None, None, set(), ("conv", host, conv) if conv else "neither compares operands nor hands its operand list to one helper (%d candidates)" % len(fw)
         (key, _), (ev, i) = next(iter(fw.items()))
         env = {j + 1: x for j, x in enumerate(ev[2]) if _const_like(x)}
         host, vecp = facts.body(key), i + 1
@@ -217,6 +239,12 @@ def run(ctx):
             # callee's parameters (a comparator fn item, a closure, a payload-free enum constant that a `match` in a
             # method turns into the comparator) — see find_host / applied_comparator
             host, vecp, henv, keys, why = find_host(facts, b, (2 if b.kind == "closure" else 1))
+            if host is None and isinstance(why, tuple):
+                # no two-operand comparator is applied where the operand list arrives; the operands are handed one by
+                # one to conversions there: they do not reach a comparator untouched
+                _, hb, conv = why
+                ctx.fail("K1.untouched", "%s: operands reach the comparator untouched (%s)" % (op, cfg), "%s applies no (value, value) comparator to its operands; %s hands single operands to %s — the operands are converted outside the adjacent comparisons" % (op, hb.key.split("::", 1)[1], sorted({c_ for _, _, c_ in conv})), where=conv[0][0].where(conv[0][1]), fn=hb.key)
+                continue
             ctx.need(host is not None, "%s: %s" % (op, why))
             ctx.need(len(keys) == 1, "%s uses several comparators: %s" % (op, sorted(keys, key=str)))
             cmp_key = next(iter(keys))
@@ -411,7 +439,9 @@ def between_by_paths(ctx, facts, host, vecp, cmp_key, op, cfg, env=None):
         return
     ctx.check(pairs_seen <= {(0, 1), (1, 2)} and (incomplete or ((0, 1) in pairs_seen and (1, 2) in pairs_seen)), "K1.three-operand", "%s compares exactly (op0,op1) and (op1,op2) (%s)" % (op, cfg),
               "%s compares the operand pairs %s" % (op, sorted(pairs_seen, key=str)), where=host.where(), fn=host.key, nontrivial=True, sample={"operator": op, "pairs": sorted(pairs_seen, key=str)})
-    ctx.need(not unread, "%s: result of the between host not readable as a boolean of the adjacent comparisons: %s" % (op, unread[:2]))
+    if unread:
+        ctx.unread("K1.conjunction", "%s (%s)" % (op, cfg), "result of the between host not readable as a boolean of the adjacent comparisons: %s" % unread[:2], where=host.where(), fn=host.key)
+        return
     ctx.check(not bad, "K1.conjunction", "%s: cmp(op0,op1) with two operands, cmp(op0,op1) && cmp(op1,op2) with three — on every path (%s)" % (op, cfg),
               "the operator does not compute the (conjunction of the) adjacent comparisons: %s" % "; ".join(bad[:4]), where=host.where(), fn=host.key, nontrivial=True)
 
@@ -624,6 +654,22 @@ def comparator_matrix(ctx, facts, roles, f, s2n, op, cfg):
             pth = callee_path(t) or ""
             if re.search(r"::(encode_utf16|to_lowercase|to_uppercase|to_ascii_lowercase|to_ascii_uppercase|eq_ignore_ascii_case)$", pth):
                 ctx.fail("K2.code-point-order", "%s|%s" % (op, pth.rsplit("::", 1)[1]), "the comparator for %s re-encodes or case-maps its strings (%s): strings must be compared by code point" % (op, pth), where=bb.where(bi), fn=bb.key)
+    # numbers are compared as the doubles they convert to: no ordering decision in the comparator's own code is taken on
+    # the 64-bit integer readings of a JSON number (distinct integers above 2^53 convert to the same double)
+    def _int_reading(bb, o):
+        return expr_mentions(bb.trace(o), lambda y: y[0] == "call" and y[1] is not None and re.search(r"^serde_json::Number::as_(i64|u64|i128|u128)$", y[1]["path"]) is not None)
+    for bk in sorted(own):
+        bb = facts.body(bk)
+        if bb is None:
+            continue
+        for bi, t in bb.calls():
+            pth = callee_path(t) or ""
+            full = (callee_of(t) or {}).get("full") or ""
+            if re.search(r"(PartialOrd|Ord).*::(cmp|partial_cmp|lt|le|gt|ge|max|min)$", pth) and re.search(r"<[iu](64|128) as | for [iu](64|128)>", full + " " + pth) and any(_int_reading(bb, a) for a in t["args"]):
+                ctx.fail("K2.numeric-domain", "%s|%s" % (op, bk.split("::", 1)[1]), "the comparator for %s orders JSON numbers by their 64-bit integer readings (%s on as_i64/as_u64): operands must be compared as the doubles they convert to" % (op, full), where=bb.where(bi), fn=bb.key)
+        for bi, si, st in bb.stmts():
+            if st["k"] == "Assign" and st["rv"]["k"] == "BinaryOp" and st["rv"]["op"] in ("Lt", "Le", "Gt", "Ge", "Eq", "Ne", "Cmp") and re.match(r"^[iu](64|128)$", st["rv"].get("opty") or "") and (_int_reading(bb, st["rv"]["a"]) or _int_reading(bb, st["rv"]["b"])):
+                ctx.fail("K2.numeric-domain", "%s|%s" % (op, bk.split("::", 1)[1]), "the comparator for %s orders JSON numbers by their 64-bit integer readings (%s on %s): operands must be compared as the doubles they convert to" % (op, st["rv"]["op"], st["rv"]["opty"]), where=bb.where(bi, si), fn=bb.key)
     groups = {}
     for conds, v, p in cases:
         kinds = {}
